@@ -1,5 +1,5 @@
 /-
-C22, part 3: the guard `CountUnobserved`, the single-fold theorem `foldFinish_sim` and the global
+C22, part 3: the structural guard `CountRefsWF`, the single-fold theorem `foldFinish_sim` and the global
 simulation between `interpret env` and `interpret { env with useLimits := false }`.
 -/
 import TrustfallModel.Proofs.FoldLimitsSim
@@ -36,53 +36,69 @@ def isMinFilter (f : IRFilter) : Bool :=
   | .count, .bin .greaterThan, some (.var _ _) => true
   | _, _, _ => false
 
-/-- The fold passes the engine's eligibility test for the min shortcut as far as the fold itself
-is concerned. -/
-def Fold.minEligible (fold : Fold) : Bool :=
-  !fold.post.isEmpty && fold.post.all isMinFilter && fold.component.outputs.isEmpty &&
-    fold.fouts.isEmpty
+/-- The engine's eligibility test for the min shortcut, as far as it is static (the condition of
+`effectiveMinLimit`, without the limit itself): the post-filters are non-empty and all `>=`/`>`
+against variables; neither the fold's component nor any fold nested inside it has outputs
+(`component_has_outputs`); no count output; the count's tag is used neither by a filter of a vertex
+of the parent component nor by a fold of the parent component (imported into it, or the operand of
+one of its post-filters) — `has_tag_on_fold_count`. -/
+def Fold.minEligible (parent : Component) (fold : Fold) : Bool :=
+  !fold.post.isEmpty && fold.post.all isMinFilter && !componentHasOutputs fold.component &&
+    fold.fouts.isEmpty && !hasTagOnFoldCount parent fold
 
 /-- Eids of the folds of a component whose element lists may be truncated. -/
-def truncEids (comp : Component) : List Eid := (comp.folds.filter Fold.minEligible).map Fold.eid
+def truncEids (comp : Component) : List Eid :=
+  (comp.folds.filter (Fold.minEligible comp)).map Fold.eid
 
-/-- The guard for one component: no filter anywhere in the component (vertex filters, post-filters
-of its folds) and no import of its folds refers to the count of a min-eligible fold (F-23); a
-min-eligible fold contains no fold with outputs (F-29); fold Eids are distinct. -/
+/-- A reference to the count of a fold of this component names that fold's root vertex: the
+frontend builds `FoldSpecificField { fold_eid, fold_root_vid, .. }` from one fold, and the engine's
+`has_tag_on_fold_count` compares both components while the lookup of the count goes by the Eid
+alone. -/
+def refWF (comp : Component) : FieldRef → Bool
+  | .fcount eid rv => comp.folds.all fun g => !(g.eid == eid) || g.toVid == rv
+  | .ctx _ _ _ => true
+
+def filterRefWF (comp : Component) (f : IRFilter) : Bool :=
+  match f.right with
+  | some (.tag r) => refWF comp r
+  | _ => true
+
+/-- Structural well-formedness of one component, as far as the fold-count shortcuts rely on it:
+every reference to a fold count (in a vertex filter, a post-filter or an import of the component)
+is consistent (`refWF`), and the folds of the component have distinct Eids.  Nothing about the
+*shape* of the query: every query the frontend compiles satisfies it. -/
 def compGuard (comp : Component) : Bool :=
-  let T := truncEids comp
-  comp.vertices.all (fun v => v.filters.all fun f => !filterReads T f) &&
-  comp.folds.all (fun g => g.post.all (fun f => !filterReads T f) &&
-    g.imports.all (fun r => !refReads T r) &&
-    (!g.minEligible || (nestedKeys g.component).isEmpty)) &&
+  comp.vertices.all (fun v => v.filters.all (filterRefWF comp)) &&
+  comp.folds.all (fun g => g.post.all (filterRefWF comp) && g.imports.all (refWF comp)) &&
   decide ((comp.folds.map Fold.eid).Nodup)
 
 mutual
-def countUnobservedC : Component → Bool
-  | .mk r vs es folds outs => compGuard (.mk r vs es folds outs) && countUnobservedFs folds
-def countUnobservedFs : List Fold → Bool
+def countRefsWFC : Component → Bool
+  | .mk r vs es folds outs => compGuard (.mk r vs es folds outs) && countRefsWFFs folds
+def countRefsWFFs : List Fold → Bool
   | [] => true
-  | (.mk _ _ _ _ _ comp _ _ _) :: fs => countUnobservedC comp && countUnobservedFs fs
+  | (.mk _ _ _ _ _ comp _ _ _) :: fs => countRefsWFC comp && countRefsWFFs fs
 end
 
-theorem countUnobservedFs_mem {fs : List Fold} (h : countUnobservedFs fs = true) :
-    ∀ g ∈ fs, countUnobservedC g.component = true := by
+theorem countRefsWFFs_mem {fs : List Fold} (h : countRefsWFFs fs = true) :
+    ∀ g ∈ fs, countRefsWFC g.component = true := by
   induction fs with
   | nil => simp
   | cons f fs ih =>
     cases f with
     | mk a b c d e comp i o p =>
-      simp only [countUnobservedFs, Bool.and_eq_true] at h
+      simp only [countRefsWFFs, Bool.and_eq_true] at h
       intro g hg
       rcases List.mem_cons.mp hg with rfl | hg
       · exact h.1
       · exact ih h.2 g hg
 
-theorem countUnobservedC_iff {comp : Component} (h : countUnobservedC comp = true) :
-    compGuard comp = true ∧ ∀ g ∈ comp.folds, countUnobservedC g.component = true := by
+theorem countRefsWFC_iff {comp : Component} (h : countRefsWFC comp = true) :
+    compGuard comp = true ∧ ∀ g ∈ comp.folds, countRefsWFC g.component = true := by
   cases comp with
   | mk r vs es folds outs =>
-    simp only [countUnobservedC, Bool.and_eq_true] at h
-    exact ⟨h.1, countUnobservedFs_mem h.2⟩
+    simp only [countRefsWFC, Bool.and_eq_true] at h
+    exact ⟨h.1, countRefsWFFs_mem h.2⟩
 
 /- A property of every fold of a query, at every nesting depth, together with its parent. -/
 mutual
@@ -188,7 +204,7 @@ theorem minFoldLimit_some_shape {env : Env} {fs : List IRFilter} {k : Nat}
 
 theorem effectiveMinLimit_some {env : Env} {parent : Component} {fold : Fold} {k : Nat}
     (h : effectiveMinLimit env parent fold = .ok (some k)) :
-    fold.minEligible = true ∧ minFoldLimit env fold.post none = .ok (some k) := by
+    fold.minEligible parent = true ∧ minFoldLimit env fold.post none = .ok (some k) := by
   simp only [effectiveMinLimit, R.bind_eq_bind] at h
   obtain ⟨o, ho, h⟩ := R.bind_eq_ok h
   cases o with
@@ -201,7 +217,7 @@ theorem effectiveMinLimit_some {env : Env} {parent : Component} {fold : Fold} {k
       simp only [Bool.and_eq_true] at hc
       obtain ⟨hne, hall⟩ := minFoldLimit_some_shape ho
       refine ⟨?_, ho⟩
-      simp only [Fold.minEligible, Bool.and_eq_true, hall, hc.1.1, hc.1.2, and_true]
+      simp only [Fold.minEligible, Bool.and_eq_true, hall, hc.1.1, hc.1.2, hc.2, and_true]
       cases hp : fold.post with
       | nil => exact absurd hp hne
       | cons _ _ => rfl
@@ -216,23 +232,107 @@ theorem foldLimits_parts {env : Env} (hu : env.useLimits = true) {parent : Compo
   simp at h; subst h
   exact ⟨ha, hb⟩
 
+/-! ### no outputs at any depth -/
+
+mutual
+theorem componentHasOutputs_false : (comp : Component) → componentHasOutputs comp = false →
+    comp.outputs = [] ∧ nestedKeys comp = []
+  | .mk _ _ _ folds outs, h => by
+    simp only [componentHasOutputs, Bool.or_eq_false_iff, Bool.not_eq_false', List.isEmpty_iff] at h
+    exact ⟨h.1, by simp only [nestedKeys]; exact foldsHaveOutputs_false folds h.2⟩
+theorem foldsHaveOutputs_false : (fs : List Fold) → foldsHaveOutputs fs = false →
+    nestedKeysFolds fs = []
+  | [], _ => rfl
+  | (.mk _ _ _ _ _ comp _ fouts _) :: fs, h => by
+    simp only [foldsHaveOutputs, Bool.or_eq_false_iff, Bool.not_eq_false', List.isEmpty_iff] at h
+    obtain ⟨⟨hfo, hc⟩, hrest⟩ := h
+    obtain ⟨ho, hn⟩ := componentHasOutputs_false comp hc
+    have ho' : comp.outputs = [] := ho
+    simp only [nestedKeysFolds, hfo, ho', hn, foldsHaveOutputs_false fs hrest, List.map_nil,
+      List.append_nil]
+end
+
 /-! ### what the guard gives for one component -/
 
 structure GuardFacts (parent : Component) : Prop where
   vertex : ∀ v ∈ parent.vertices, ∀ f ∈ v.filters, filterReads (truncEids parent) f = false
   post : ∀ g ∈ parent.folds, ∀ f ∈ g.post, filterReads (truncEids parent) f = false
   imports : ∀ g ∈ parent.folds, ∀ r ∈ g.imports, refReads (truncEids parent) r = false
-  nested : ∀ g ∈ parent.folds, g.minEligible = true → nestedKeys g.component = []
+  nested : ∀ g ∈ parent.folds, g.minEligible parent = true → nestedKeys g.component = []
   nodup : (parent.folds.map Fold.eid).Nodup
 
+/-- a well-formed reference that reads the slot of a truncated fold is the count tag of a fold that
+passed the eligibility test -/
+theorem refReads_elim {parent : Component} {r : FieldRef}
+    (h : refReads (truncEids parent) r = true) (hwf : refWF parent r = true) :
+    ∃ g ∈ parent.folds, g.minEligible parent = true ∧ isTagOnThisFoldCount g r = true := by
+  cases r with
+  | ctx v f t => simp [refReads] at h
+  | fcount eid rv =>
+    simp only [refReads, truncEids, List.contains_eq_mem, List.mem_map, List.mem_filter,
+      decide_eq_true_eq] at h
+    obtain ⟨g, ⟨hg, he⟩, heq⟩ := h
+    simp only [refWF, List.all_eq_true, Bool.or_eq_true, Bool.not_eq_true', beq_eq_false_iff_ne,
+      beq_iff_eq] at hwf
+    refine ⟨g, hg, he, ?_⟩
+    rcases hwf g hg with hne | htv
+    · exact absurd heq hne
+    · simp [isTagOnThisFoldCount, htv, heq]
+
+theorem eligible_not_tagged {parent : Component} {g : Fold} (he : g.minEligible parent = true) :
+    hasTagOnFoldCount parent g = false := by
+  simp only [Fold.minEligible, Bool.and_eq_true, Bool.not_eq_true'] at he
+  exact he.2
+
 theorem compGuard_facts {parent : Component} (h : compGuard parent = true) : GuardFacts parent := by
-  simp only [compGuard, Bool.and_eq_true, List.all_eq_true, Bool.not_eq_true', Bool.or_eq_true,
-    decide_eq_true_eq, List.isEmpty_iff] at h
+  simp only [compGuard, Bool.and_eq_true, List.all_eq_true, decide_eq_true_eq] at h
   obtain ⟨⟨hv, hf⟩, hnd⟩ := h
-  refine ⟨hv, fun g hg => (hf g hg).1.1, fun g hg => (hf g hg).1.2, fun g hg he => ?_, hnd⟩
-  rcases (hf g hg).2 with h' | h'
-  · rw [he] at h'; simp at h'
-  · exact h'
+  refine ⟨?_, ?_, ?_, ?_, hnd⟩
+  · intro v hvm f hfm
+    rw [Bool.eq_false_iff]
+    intro hr
+    have hwf := hv v hvm f hfm
+    unfold filterReads at hr
+    unfold filterRefWF at hwf
+    split at hr
+    · rename_i r hright
+      simp only [hright] at hwf
+      obtain ⟨g, hg, he, ht⟩ := refReads_elim hr hwf
+      have hno := eligible_not_tagged he
+      have : hasTagOnFoldCount parent g = true := by
+        simp only [hasTagOnFoldCount, Bool.or_eq_true, List.any_eq_true]
+        exact .inl ⟨v, hvm, f, hfm, by simp only [filterTagsFoldCount, hright, ht]⟩
+      rw [this] at hno; simp at hno
+    · simp at hr
+  · intro g' hg' f hfm
+    rw [Bool.eq_false_iff]
+    intro hr
+    have hwf := (hf g' hg').1 f hfm
+    unfold filterReads at hr
+    unfold filterRefWF at hwf
+    split at hr
+    · rename_i r hright
+      simp only [hright] at hwf
+      obtain ⟨g, hg, he, ht⟩ := refReads_elim hr hwf
+      have hno := eligible_not_tagged he
+      have : hasTagOnFoldCount parent g = true := by
+        simp only [hasTagOnFoldCount, Bool.or_eq_true, List.any_eq_true]
+        exact .inr ⟨g', hg', .inr ⟨f, hfm, by simp only [filterTagsFoldCount, hright, ht]⟩⟩
+      rw [this] at hno; simp at hno
+    · simp at hr
+  · intro g' hg' r hrm
+    rw [Bool.eq_false_iff]
+    intro hr
+    have hwf := (hf g' hg').2 r hrm
+    obtain ⟨g, hg, he, ht⟩ := refReads_elim hr hwf
+    have hno := eligible_not_tagged he
+    have : hasTagOnFoldCount parent g = true := by
+      simp only [hasTagOnFoldCount, Bool.or_eq_true, List.any_eq_true]
+      exact .inr ⟨g', hg', .inl ⟨r, hrm, ht⟩⟩
+    rw [this] at hno; simp at hno
+  · intro g _ he
+    simp only [Fold.minEligible, Bool.and_eq_true, Bool.not_eq_true'] at he
+    exact (componentHasOutputs_false g.component he.1.1.2).2
 
 theorem inj_of_nodup_map {α β : Type} {f : α → β} {l : List α} (h : (l.map f).Nodup) {a b : α}
     (ha : a ∈ l) (hb : b ∈ l) (hab : f a = f b) : a = b := by
@@ -247,12 +347,12 @@ theorem inj_of_nodup_map {α β : Type} {f : α → β} {l : List α} (h : (l.ma
     · exact ih h.2 ha' hb'
 
 theorem mem_truncEids_of_eligible {parent : Component} {g : Fold} (hg : g ∈ parent.folds)
-    (he : g.minEligible = true) : (truncEids parent).contains g.eid = true := by
+    (he : g.minEligible parent = true) : (truncEids parent).contains g.eid = true := by
   simp only [truncEids, List.contains_eq_mem, List.mem_map, List.mem_filter, decide_eq_true_eq]
   exact ⟨g, ⟨hg, he⟩, rfl⟩
 
 theorem not_mem_truncEids_of_not_eligible {parent : Component} {g : Fold} (hg : g ∈ parent.folds)
-    (hnd : (parent.folds.map Fold.eid).Nodup) (he : g.minEligible = false) :
+    (hnd : (parent.folds.map Fold.eid).Nodup) (he : g.minEligible parent = false) :
     (truncEids parent).contains g.eid = false := by
   rw [Bool.eq_false_iff]
   intro hc
@@ -262,29 +362,15 @@ theorem not_mem_truncEids_of_not_eligible {parent : Component} {g : Fold} (hg : 
   subst this
   rw [he] at he'; simp at he'
 
-theorem hasTag_false_of_guard {parent : Component} {g : Fold} (hgf : GuardFacts parent)
-    (hg : g ∈ parent.folds) (he : g.minEligible = true) : hasTagOnFoldCount parent g = false := by
-  rw [Bool.eq_false_iff]
-  intro h
-  simp only [hasTagOnFoldCount, List.any_eq_true] at h
-  obtain ⟨v, hv, f, hf, hm⟩ := h
-  have hr := hgf.vertex v hv f hf
-  split at hm
-  · rename_i eid rv hright
-    simp only [Bool.and_eq_true, beq_iff_eq] at hm
-    simp only [filterReads, hright, refReads, hm.2, mem_truncEids_of_eligible hg he] at hr
-    simp at hr
-  · simp at hm
-
-/-- The limits of a min-eligible fold of a guarded component: no max limit, min limit `k`. -/
+/-- The limits of a min-eligible fold: no max limit, min limit `k`. -/
 theorem foldLimits_eligible {env : Env} (hu : env.useLimits = true) {parent : Component} {g : Fold}
-    (hgf : GuardFacts parent) (hg : g ∈ parent.folds) (he : g.minEligible = true)
+    (he : g.minEligible parent = true)
     {lim : Option Nat × Option Nat} (h : foldLimits env parent g = .ok lim) :
     ∃ k, lim = (none, some k) ∧ minFoldLimit env g.post none = .ok (some k) := by
   obtain ⟨hmax, hmin⟩ := foldLimits_parts hu h
   have he' := he
   simp only [Fold.minEligible, Bool.and_eq_true, Bool.not_eq_true', List.isEmpty_eq_false_iff] at he'
-  obtain ⟨⟨⟨hne, hall⟩, hout⟩, hfo⟩ := he'
+  obtain ⟨⟨⟨⟨hne, hall⟩, hout⟩, hfo⟩, htag⟩ := he'
   rw [maxFoldLimit_allMin env hall] at hmax
   simp only [effectiveMinLimit, R.bind_eq_bind] at hmin
   obtain ⟨o, ho, hmin⟩ := R.bind_eq_ok hmin
@@ -292,13 +378,13 @@ theorem foldLimits_eligible {env : Env} (hu : env.useLimits = true) {parent : Co
   cases o with
   | none => exact absurd rfl hne'
   | some k =>
-    simp only [hout, hfo, hasTag_false_of_guard hgf hg he, Bool.not_false, Bool.and_self, if_true,
+    simp only [hout, hfo, htag, Bool.not_false, Bool.and_self, if_true,
       R.pure_eq_ok, R.ok.injEq] at hmin
     refine ⟨k, ?_, ho⟩
     cases lim; simp only [R.ok.injEq] at hmax; simp_all
 
 theorem foldLimits_not_eligible {env : Env} (hu : env.useLimits = true) {parent : Component}
-    {g : Fold} (he : g.minEligible = false) {lim : Option Nat × Option Nat}
+    {g : Fold} (he : g.minEligible parent = false) {lim : Option Nat × Option Nat}
     (h : foldLimits env parent g = .ok lim) :
     lim.2 = none ∧ maxFoldLimit env g.post none = .ok lim.1 := by
   obtain ⟨hmax, hmin⟩ := foldLimits_parts hu h
@@ -465,18 +551,6 @@ theorem finishTail_ok {e : Env} {parent : Component} {g : Fold} {c : Ctx}
         simp at h
         exact ⟨news, c4, hn, h4, h.symm⟩
 
-/-- a fold that does not exist for the context (`elems = none`) survives `finishTail` only without
-post-filters (otherwise `unreachable!`, F-9) -/
-theorem finishTail_none_post {e : Env} {parent : Component} {g : Fold} {c : Ctx} {r : Option Ctx}
-    (h : finishTail e parent g c none = .ok r) : g.post = [] := by
-  obtain ⟨_, c2, _, hslot, _, o, ho, _⟩ := finishTail_ok h
-  cases hp : g.post with
-  | nil => rfl
-  | cons f fs =>
-    rw [hp] at ho
-    simp only [applyPostFilters, R.bind_eq_bind, applyPostFilter, hslot, Option.map_none] at ho
-    simp at ho
-
 /-- transfer of a commuting step along `norm`-equal inputs -/
 theorem rel_of_comm {α : Type} {T : List Eid} {f : Ctx → R α} {m : α → α}
     (hf : ∀ x, f (x.norm T false) = (f x).map m) {x x' : Ctx}
@@ -512,5 +586,12 @@ theorem norm_append_slot_mem {T : List Eid} {e : Eid} (hT : T.contains e = true)
       { c.norm T false with foldCounts := (c.norm T false).foldCounts ++ [(e, some 0)] } := by
   have hT' : e ∈ T := by simpa using hT
   simp [Ctx.norm, normSlot, hT']
+
+theorem norm_append_slot_none {T : List Eid} (e : Eid) (c : Ctx) :
+    ({ c with foldCounts := c.foldCounts ++ [(e, none)] } : Ctx).norm T false =
+      { c.norm T false with foldCounts := (c.norm T false).foldCounts ++ [(e, none)] } := by
+  have : normSlot T (e, none) = (e, none) := by
+    unfold normSlot; split <;> rfl
+  simp [Ctx.norm, this]
 
 end TF.Engine
